@@ -1,0 +1,27 @@
+/* Verification hooks: compiled in only with -DMUSCLE_VERIF_HOOKS; when g_hooks is NULL every hook is a no-op */
+#ifndef MuscleVerifHooks_h
+#define MuscleVerifHooks_h
+#ifdef MUSCLE_VERIF_HOOKS
+#include <stdint.h>
+namespace muscle_verif {
+class Hooks
+{
+public:
+   virtual ~Hooks() {}
+   virtual void MutexLock(const void * m) = 0;
+   virtual bool MutexTryLock(const void * m) = 0;
+   virtual void MutexUnlock(const void * m) = 0;
+   virtual bool CondWait(const void * c, volatile uint32_t * counter, uint64_t deadline, uint32_t * retCount) = 0;  // false == timed out
+   virtual void CondNotify(const void * c, volatile uint32_t * counter, uint32_t increaseBy) = 0;
+   virtual void ThreadSpawned(const void * t) = 0;   // called by the spawner after a successful spawn
+   virtual void ThreadBegin(const void * t) = 0;     // first thing the new thread does
+   virtual void ThreadEnd(const void * t) = 0;       // last thing the new thread does
+   virtual void ThreadJoin(const void * t) = 0;      // called before the real join
+   virtual void WaitReadable(int fd, uint64_t deadline) = 0;  // called instead of blocking in the multiplexer
+   virtual void Yield() = 0;                        // plain preemption point (around atomic operations)
+   virtual bool VirtualTime(uint64_t * retMicros) = 0;  // true == GetRunTime64() should return (*retMicros) instead of the real clock
+};
+extern Hooks * g_hooks;
+}
+#endif
+#endif
